@@ -197,7 +197,9 @@ def run(ctx):
     from spectrum import minvar, arburg
     rng = ctx.rng
     ctx.check_theorems('Properties/C16.v')
-    loopir_tie(ctx, ['minvar_psi', 'arburg'])      # IR programs regenerated from the source vs the model: exact, zero tolerance
+    # IR programs regenerated from the source vs the model: exact, zero tolerance; `minvar` is the WHOLE function (checks + embedded arburg + psi loop +
+    # fft + division) against Model.Minvar.minvar, at QcC with tw1 / tw2 / tw4 and at binary64 against the model and the implementation
+    loopir_tie(ctx, ['minvar_psi', 'arburg', 'minvar'])
 
     # ------------------------------------------------------------------ exact correspondence at Gaussian rationals
     cases = []; meta = []
